@@ -20,8 +20,8 @@ ASSUMPTIONS = ['"no alignment exists" is read as "no alignment of finite total c
                'failure must be reported as ValueError (the documented exception)',
                'ties: any optimal alignment is accepted (costs are compared, not paths)']
 N = {'quick': 4000, 'thorough': 150000}
-CLASSES = ['continuous', 'integer_ties', 'with_inf', 'boundary', 'small_brute', 'small_brute_inf', 'blank_in_labels', 'long', 'float32', 'float32_long', 'large_alphabet', 'very_long', 'huge_costs']
-REQUIRED = ['presentation:6', 'frames_over_32767', 'huge_cost_matrices', 'negative_blank_index', 'narrow_label_arrays', 'presentation:0', 'presentation:1', 'presentation:2', 'presentation:5', 'float32_matrices', 'feasible_checked', 'infeasible_checked', 'brute_checked', 'align_text_checked', 'nojit_compared']
+CLASSES = ['continuous', 'integer_ties', 'with_inf', 'boundary', 'small_brute', 'small_brute_inf', 'blank_in_labels', 'long', 'float32', 'float32_long', 'large_alphabet', 'very_long', 'huge_costs', 'negative_costs']
+REQUIRED = ['presentation:7', 'presentation:6', 'frames_over_32767', 'huge_cost_matrices', 'negative_blank_index', 'narrow_label_arrays', 'presentation:0', 'presentation:1', 'presentation:2', 'presentation:5', 'float32_matrices', 'feasible_checked', 'infeasible_checked', 'brute_checked', 'align_text_checked', 'nojit_compared']
 TIMEOUT = {'quick': 900, 'thorough': 7200}
 
 
@@ -78,6 +78,8 @@ def gen(rng, i, ctx=None):
         cost = (cost + float(rng.choice([0.0, 0.0, 50.0, 500.0]))).astype(np.float32)
     if cls == 'very_long' and T > 32767:
         cost[T - 3, labels[-1]] = -50.0          # the last character is clearly written near the end of the line
+    if cls == 'negative_costs':
+        cost = cost - float(rng.uniform(1, 20))           # raw / unnormalised scores: costs below zero
     if cls == 'huge_costs':
         cost = cost * float(rng.choice([1e39, 1e120, 1e300 / max(T, 1) / 50]))        # finite double-precision costs beyond the single-precision range
     case = {'cost': cost, 'labels': labels, 'blank': blank, 'cls': cls}
@@ -152,7 +154,7 @@ def check(case, mon, ctx):
         mon.violation('minimal-cost', {'alignment': al, 'cost': c, 'optimal': opt})
     # the same numbers presented differently (memory layout of the matrix, container of the labels): a minimal-cost alignment again, and the caller's
     # matrix is left unchanged
-    variant = (T + len(labels) + blank) % 7
+    variant = (T + len(labels) + blank) % 8
     mon.count('presentation:%d' % variant)
     big = np.full((T + 3, 2 * cost.shape[1] + 1), 7.0, dtype=cost.dtype)
     if variant == 0:
@@ -168,8 +170,11 @@ def check(case, mon, ctx):
         cv, lv = cost.copy(), np.array(labels, dtype=np.int64)
     elif variant == 5:
         cv, lv = cost[::-1][::-1], [np.int64(x) for x in labels]                # negative-stride round trip, numpy integer scalars
-    else:
+    elif variant == 6:
         cv, lv = cost.copy(), [int(x) - cost.shape[1] for x in labels]          # the labels addressed numpy-style from the end (-1 = last class), like the blank may be
+    else:
+        cv, lv = cost.copy(), list(labels)                                       # a read-only matrix (a memory-mapped file, a broadcast view, a cached array)
+        cv.setflags(write=False)
     keep = np.array(cv, copy=True)
     try:
         r3 = fa.force_align(cv, lv, blank)
